@@ -8,4 +8,7 @@ mkdir -p .build evidence replays
 (cd harness && cargo build --release --offline --target-dir /verif/.build/plain 2>&1 | tail -3)
 cargo build --release --offline --bin adlt --features verif_hooks --manifest-path /repo/Cargo.toml --target-dir /verif/.build/adlt-bin \
   --config profile.release.debug-assertions=true --config profile.release.overflow-checks=true --config profile.release.opt-level=2 2>&1 | tail -3
+# warm up the Miri build (used by the small interpreter shards of the quick tier of C06 and C18); failure here is not fatal:
+# the phase then reports itself as inconclusive
+(cd harness && MIRIFLAGS="-Zmiri-tree-borrows -Zmiri-disable-isolation" cargo +nightly miri run --offline --target-dir /verif/.build/miri -- c01 --cases 1 --secs 1 --out /verif/.build/miri_warm.json tiny 2>&1 | tail -2) || true
 echo setup done
